@@ -8,6 +8,19 @@
 //       n draws of sampleUniform / sampleUniformNear / sampleGaussian from allocDefaultStateSampler()
 //       (or the SubspaceStateSampler of component k), satisfiesBounds of every output
 //       -> `n=<n> bad=<k> moved=<outputs differing from the centre> first=<state|->`   (implementation only)
+//   subs <u|n|g> <plen> <k>*plen <dist> <space> <state> <near> <scripted substate>
+//       SubspaceStateSampler over the nested component at the path, with a SCRIPTED inner sampler installed on that
+//       subspace (setStateSamplerAllocator): the inner sampler records the call it receives and writes the scripted substate
+//       -> `out=<full state> | call=<U|N|G> d=<distance it was given> near=<substate it was given>`   (lock-step)
+//   cmps <u|n|g> <dist> <compound space> <near>
+//       decision logic of CompoundStateSampler (allocDefaultStateSampler of a plain compound / SE2 / SE3): a recording
+//       sampler is installed on every DIRECT component; one sampleUniform / sampleUniformNear / sampleGaussian call
+//       -> `calls=<U|N:<distance>|G:<sigma>>,…` (one entry per component, in order)                    (lock-step)
+//   rawu <u|n|g> <recipe> <dist> <space> <centre>
+//       one call of the default sampler of a single-sampler-object space (rv, so2, so3, time, disc, torus, klein, sphere)
+//       together with the raw draws it consumed: the sampler's RNG is re-created from its local seed and queried in the
+//       order given by the recipe (u = uniform01, g = gaussian01, c = pow(uniform01, 1/3))
+//       -> `us=<u/c draws,…> gs=<g draws,…> | <state>`        (phase 1 of a two-phase lock-step with `rsamp` of the driver)
 //   alias <n|g> <n> <dist> <space> <centre>
 //       alias-safety probe: the default sampler is called with state == near (the SAME pointer), as
 //       SubspaceStateSampler-like code and multilevel/GraphSampler.cpp (`sampleUniformNear(xRandom, xRandom, eps)`) do;
@@ -45,6 +58,8 @@
 #include <ompl/util/RandomNumbers.h>
 #include <ompl/util/Console.h>
 #include <ompl/util/Exception.h>
+#include <boost/math/constants/constants.hpp>
+#include <cmath>
 #include <map>
 #include <memory>
 
@@ -282,6 +297,104 @@ private:
     unsigned permille_;
 };
 
+// access to the protected StateSampler::rng_ (pointer-to-member through a derived class; nothing is instantiated)
+struct PeekRng : public ob::StateSampler
+{
+    static ompl::RNG &of(ob::StateSampler &s)
+    {
+        return s.*(&PeekRng::rng_);
+    }
+};
+
+// inner sampler of the `subs` op: records the call, writes the scripted substate
+struct SubScript
+{
+    ob::StateSpacePtr sub;
+    std::vector<std::string> toks;   // the scripted substate
+    std::string call = "-", dist = "-", near = "-";
+};
+
+class RecordingInner : public ob::StateSampler
+{
+public:
+    RecordingInner(const ob::StateSpace *sp, SubScript *sc) : ob::StateSampler(sp), sc_(sc)
+    {
+    }
+    void write(ob::State *st)
+    {
+        size_t i = 0;
+        vp::parseStateInto(space_, st, sc_->toks, i);
+    }
+    void sampleUniform(ob::State *st) override
+    {
+        sc_->call = "U";
+        write(st);
+    }
+    void sampleUniformNear(ob::State *st, const ob::State *near, double d) override
+    {
+        sc_->call = "N";
+        sc_->dist = vp::bits(d);
+        sc_->near = vp::showState(sc_->sub, near);
+        write(st);
+    }
+    void sampleGaussian(ob::State *st, const ob::State *mean, double d) override
+    {
+        sc_->call = "G";
+        sc_->dist = vp::bits(d);
+        sc_->near = vp::showState(sc_->sub, mean);
+        write(st);
+    }
+
+private:
+    SubScript *sc_;
+};
+
+// StateSpace.cpp's computeLocationsHelper does `if (s->isCompound()) s->as<CompoundStateSpace>()->getSubspaceCount()`;
+// WrapperStateSpace::isCompound() forwards to the wrapped space, so for a wrapper around a compound space this static_casts
+// a WrapperStateSpace to CompoundStateSpace (type confusion, undefined behaviour).  The harness never builds location tables
+// for such a space (observed while building the SubspaceStateSampler lock-step; reported in notes/C08.md).
+static bool hasWrappedCompound(const ob::StateSpace *s)
+{
+    if (auto *w = dynamic_cast<const ob::WrapperStateSpace *>(s))
+        return w->getSpace()->isCompound() || hasWrappedCompound(w->getSpace().get());
+    if (auto *c = dynamic_cast<const ob::CompoundStateSpace *>(s))
+        for (unsigned j = 0; j < c->getSubspaceCount(); ++j)
+            if (hasWrappedCompound(c->getSubspace(j).get()))
+                return true;
+    return false;
+}
+
+static void safeComputeLocations(const ob::StateSpacePtr &sp)
+{
+    if (hasWrappedCompound(sp.get()))
+        throw ompl::Exception("wrapper around a compound space: computeLocations() would be undefined behaviour");
+    sp->computeLocations();
+}
+
+// per-component recorder of the `cmps` op (leaves the component state as it is)
+class RecordingComponent : public ob::StateSampler
+{
+public:
+    RecordingComponent(const ob::StateSpace *sp, std::string *out) : ob::StateSampler(sp), out_(out)
+    {
+    }
+    void sampleUniform(ob::State *) override
+    {
+        *out_ = "U";
+    }
+    void sampleUniformNear(ob::State *, const ob::State *, double d) override
+    {
+        *out_ = "N:" + vp::bits(d);
+    }
+    void sampleGaussian(ob::State *, const ob::State *, double d) override
+    {
+        *out_ = "G:" + vp::bits(d);
+    }
+
+private:
+    std::string *out_;
+};
+
 // copy the bound settings of `src` (a freshly parsed space of the same structure) onto the live space `dst`
 static void applyBounds(ob::StateSpace *dst, const ob::StateSpace *src)
 {
@@ -428,7 +541,7 @@ int main()
                     sp->copyState(st, centre);
                     // SubspaceStateSampler copies by substate NAME (copyStateData): without the location tables
                     // (normally built by setup(); setup() itself refuses zero-extent spaces) it would write nothing
-                    sp->computeLocations();
+                    safeComputeLocations(sp);
                     sampler = sp->allocSubspaceStateSampler(c->getSubspace((unsigned)sub));
                 }
                 unsigned long bad = 0, moved = 0;
@@ -454,6 +567,197 @@ int main()
                 sp->freeState(st);
                 sp->freeState(centre);
                 std::cout << "n=" << n << " bad=" << bad << " moved=" << moved << " first=" << first << "\n";
+            }
+            else if (op == "subs")
+            {
+                if (t.size() < 5)
+                    throw vp::ParseError("subs");
+                std::string kind = t[i++];
+                if (kind != "u" && kind != "n" && kind != "g")
+                    throw vp::ParseError("kind");
+                unsigned long plen = vp::needN(t, i);
+                std::vector<unsigned long> path;
+                for (unsigned long k = 0; k < plen; ++k)
+                    path.push_back(vp::needN(t, i));
+                double dist = vp::needF(t, i);
+                auto sp = vp::parseSpace(t, i);
+                // the subspace at the path: through plain compounds only (as the model)
+                ob::StateSpacePtr sub = sp;
+                for (unsigned long k : path)
+                {
+                    auto *c = dynamic_cast<ob::CompoundStateSpace *>(sub.get());
+                    if (!c || dynamic_cast<ob::TorusStateSpace *>(c) || dynamic_cast<ob::MobiusStateSpace *>(c) ||
+                        dynamic_cast<ob::KleinBottleStateSpace *>(c) || dynamic_cast<ob::SphereStateSpace *>(c) ||
+                        k >= c->getSubspaceCount())
+                        throw vp::ParseError("path");
+                    sub = c->getSubspace((unsigned)k);
+                }
+                if (dynamic_cast<ob::WrapperStateSpace *>(sub.get()))
+                    throw vp::ParseError("wrapper subspace: no common substate names, sampling has no effect");
+                ob::State *st = sp->allocState();
+                ob::State *near = sp->allocState();
+                SubScript sc;
+                sc.sub = sub;
+                try
+                {
+                    vp::parseStateInto(sp.get(), st, t, i);
+                    vp::parseStateInto(sp.get(), near, t, i);
+                    // the scripted substate: exactly the remaining tokens, checked by a trial parse
+                    sc.toks.assign(t.begin() + i, t.end());
+                    ob::State *probe = sub->allocState();
+                    size_t j = 0;
+                    try
+                    {
+                        vp::parseStateInto(sub.get(), probe, sc.toks, j);
+                    }
+                    catch (...)
+                    {
+                        sub->freeState(probe);
+                        throw;
+                    }
+                    sub->freeState(probe);
+                    if (j != sc.toks.size())
+                        throw vp::ParseError("trailing");
+                }
+                catch (...)
+                {
+                    sp->freeState(st);
+                    sp->freeState(near);
+                    throw;
+                }
+                SubScript *scp = &sc;
+                if (hasWrappedCompound(sp.get()))
+                {
+                    sp->freeState(st);
+                    sp->freeState(near);
+                    throw vp::ParseError("wrapper around a compound space");
+                }
+                sub->setStateSamplerAllocator([scp](const ob::StateSpace *s)
+                                              { return std::make_shared<RecordingInner>(s, scp); });
+                sp->computeLocations();
+                {
+                    auto sampler = sp->allocSubspaceStateSampler(sub);
+                    if (kind == "u")
+                        sampler->sampleUniform(st);
+                    else if (kind == "n")
+                        sampler->sampleUniformNear(st, near, dist);
+                    else
+                        sampler->sampleGaussian(st, near, dist);
+                }
+                std::cout << "out=" << vp::showState(sp, st) << " | call=" << sc.call << " d=" << sc.dist
+                          << " near=" << sc.near << "\n";
+                sub->clearStateSamplerAllocator();
+                sp->freeState(st);
+                sp->freeState(near);
+            }
+            else if (op == "cmps")
+            {
+                if (t.size() < 4)
+                    throw vp::ParseError("cmps");
+                std::string kind = t[i++];
+                if (kind != "u" && kind != "n" && kind != "g")
+                    throw vp::ParseError("kind");
+                double dist = vp::needF(t, i);
+                auto sp = vp::parseSpace(t, i);
+                auto *c = dynamic_cast<ob::CompoundStateSpace *>(sp.get());
+                if (!c || dynamic_cast<ob::TorusStateSpace *>(c) || dynamic_cast<ob::MobiusStateSpace *>(c) ||
+                    dynamic_cast<ob::KleinBottleStateSpace *>(c) || dynamic_cast<ob::SphereStateSpace *>(c))
+                    throw vp::ParseError("cmps needs a plain compound");
+                ob::State *near = sp->allocState();
+                ob::State *st = sp->allocState();
+                try
+                {
+                    vp::parseStateInto(sp.get(), near, t, i);
+                    if (i != t.size())
+                        throw vp::ParseError("trailing");
+                }
+                catch (...)
+                {
+                    sp->freeState(st);
+                    sp->freeState(near);
+                    throw;
+                }
+                sp->copyState(st, near);
+                std::vector<std::string> rec(c->getSubspaceCount(), "-");
+                for (unsigned j = 0; j < c->getSubspaceCount(); ++j)
+                {
+                    std::string *slot = &rec[j];
+                    c->getSubspace(j)->setStateSamplerAllocator(
+                        [slot](const ob::StateSpace *s) { return std::make_shared<RecordingComponent>(s, slot); });
+                }
+                {
+                    auto sampler = sp->allocDefaultStateSampler();
+                    if (kind == "u")
+                        sampler->sampleUniform(st);
+                    else if (kind == "n")
+                        sampler->sampleUniformNear(st, near, dist);
+                    else
+                        sampler->sampleGaussian(st, near, dist);
+                }
+                std::string out = "calls=";
+                for (unsigned j = 0; j < rec.size(); ++j)
+                    out += (j ? "," : "") + rec[j];
+                std::cout << out << "\n";
+                sp->freeState(st);
+                sp->freeState(near);
+            }
+            else if (op == "rawu")
+            {
+                if (t.size() < 5)
+                    throw vp::ParseError("rawu");
+                std::string kind = t[i++];
+                std::string recipe = t[i++];
+                if (kind != "u" && kind != "n" && kind != "g")
+                    throw vp::ParseError("kind");
+                for (char c : recipe)
+                    if (c != 'u' && c != 'g' && c != 'c')
+                        throw vp::ParseError("recipe");
+                double dist = vp::needF(t, i);
+                auto sp = vp::parseSpace(t, i);
+                if (dynamic_cast<ob::WrapperStateSpace *>(sp.get()) ||
+                    (dynamic_cast<ob::CompoundStateSpace *>(sp.get()) && !dynamic_cast<ob::TorusStateSpace *>(sp.get()) &&
+                     !dynamic_cast<ob::KleinBottleStateSpace *>(sp.get()) && !dynamic_cast<ob::SphereStateSpace *>(sp.get())))
+                    throw vp::ParseError("rawu needs a single-sampler-object space");
+                ob::State *centre = sp->allocState();
+                ob::State *st = sp->allocState();
+                try
+                {
+                    vp::parseStateInto(sp.get(), centre, t, i);
+                    if (i != t.size())
+                        throw vp::ParseError("trailing");
+                }
+                catch (...)
+                {
+                    sp->freeState(st);
+                    sp->freeState(centre);
+                    throw;
+                }
+                auto sampler = sp->allocDefaultStateSampler();
+                ompl::RNG copy(PeekRng::of(*sampler).getLocalSeed());
+                std::string us, gs;
+                for (char c : recipe)
+                {
+                    if (c == 'g')
+                        gs += (gs.empty() ? "" : ",") + vp::bits(copy.gaussian01());
+                    else
+                    {
+                        double u = copy.uniform01();
+                        if (c == 'c')
+                            u = pow(u, boost::math::constants::third<double>());
+                        us += (us.empty() ? "" : ",") + vp::bits(u);
+                    }
+                }
+                sp->copyState(st, centre);
+                if (kind == "u")
+                    sampler->sampleUniform(st);
+                else if (kind == "n")
+                    sampler->sampleUniformNear(st, centre, dist);
+                else
+                    sampler->sampleGaussian(st, centre, dist);
+                std::cout << "us=" << (us.empty() ? "-" : us) << " gs=" << (gs.empty() ? "-" : gs) << " | "
+                          << vp::showState(sp, st) << "\n";
+                sp->freeState(st);
+                sp->freeState(centre);
             }
             else if (op == "alias")
             {
@@ -572,7 +876,7 @@ int main()
                         sp->freeState(st);
                         throw vp::ParseError("sub");
                     }
-                    sp->computeLocations();   // SubspaceStateSampler copies by substate name (see `samp`)
+                    safeComputeLocations(sp);   // SubspaceStateSampler copies by substate name (see `samp`)
                     sampler = sp->allocSubspaceStateSampler(c->getSubspace((unsigned)sub));
                 }
                 else if (which == "vss")
